@@ -52,6 +52,57 @@ static CV: Condvar = Condvar::new();
 
 thread_local! {
     static TID: Cell<i32> = const { Cell::new(-1) };
+    /// allocator seam: this sim thread is inside an operation of the code under test
+    static ALLOC_ARMED: Cell<bool> = const { Cell::new(false) };
+    /// allocator seam: nesting depth of simulator code running on this thread (yield points,
+    /// callbacks, harness bookkeeping) — allocations made there are never yield points
+    static IN_SIM: Cell<u32> = const { Cell::new(0) };
+    static ALLOC_COUNT: Cell<u64> = const { Cell::new(0) };
+}
+
+/// Allocator seam: every `ALLOC_EVERY`-th heap allocation a sim thread makes inside an
+/// operation is a yield point (0 = off). The heap is the one thing every piece of shared
+/// state a change could introduce has to go through sooner or later, so this gives
+/// interleavings far below the granularity of hook points and system calls — and the k-th
+/// allocation of a deterministic computation is a deterministic place, so it replays.
+static ALLOC_EVERY: std::sync::atomic::AtomicU32 = std::sync::atomic::AtomicU32::new(0);
+
+pub fn set_alloc_every(k: u32) {
+    ALLOC_EVERY.store(k, std::sync::atomic::Ordering::SeqCst);
+}
+
+/// Run simulator code on a sim thread without allocator yield points.
+pub fn no_yield<R>(f: impl FnOnce() -> R) -> R {
+    let _ = IN_SIM.try_with(|d| d.set(d.get() + 1));
+    let r = f();
+    let _ = IN_SIM.try_with(|d| d.set(d.get().saturating_sub(1)));
+    r
+}
+
+/// Called by the global allocator after every allocation.
+#[inline]
+pub fn alloc_tick() {
+    let every = ALLOC_EVERY.load(std::sync::atomic::Ordering::Relaxed);
+    if every == 0 {
+        return;
+    }
+    alloc_tick_slow(every);
+}
+
+#[cold]
+fn alloc_tick_slow(every: u32) {
+    let armed = ALLOC_ARMED.try_with(|a| a.get()).unwrap_or(false);
+    if !armed || IN_SIM.try_with(|d| d.get()).unwrap_or(1) != 0 {
+        return;
+    }
+    let c = ALLOC_COUNT.try_with(|c| {
+        let v = c.get() + 1;
+        c.set(v);
+        v
+    }).unwrap_or(1);
+    if c % every as u64 == 0 {
+        yield_point("alloc");
+    }
 }
 
 #[derive(Clone, Debug, Default, Serialize, Deserialize)]
@@ -207,6 +258,7 @@ pub fn start() {
 
 /// Called by a sim thread when it is done.
 pub fn thread_exit() {
+    ALLOC_ARMED.with(|a| a.set(false));
     let tid = TID.with(|t| t.get());
     crate::shim::register_thread(-1);
     TID.with(|t| t.set(-1));
@@ -233,6 +285,7 @@ pub fn set_in_op(flag: bool) {
     if tid < 0 {
         return;
     }
+    ALLOC_ARMED.with(|a| a.set(flag));
     if let Some(i) = lock().as_mut() {
         i.in_op[tid as usize] = flag;
     }
@@ -244,6 +297,10 @@ pub fn current_tid() -> i32 {
 
 /// A yield point. May hand the baton to another thread and block until it comes back.
 pub fn yield_point(label: &str) {
+    no_yield(|| yield_point_inner(label))
+}
+
+fn yield_point_inner(label: &str) {
     let tid = TID.with(|t| t.get());
     if tid < 0 {
         return;
@@ -274,7 +331,12 @@ pub fn yield_point(label: &str) {
     }
     i.step += 1;
     i.sig = mix(i.sig, mix(tid as u64, fnv1a(label.as_bytes())));
-    *i.labels.entry(label.to_string()).or_insert(0) += 1;
+    match i.labels.get_mut(label) {
+        Some(c) => *c += 1,
+        None => {
+            i.labels.insert(label.to_string(), 1);
+        }
+    }
     let next = i.choose(tid, true);
     i.recorded.push(next as u8);
     if next != tid {
